@@ -5,7 +5,7 @@ func init() {
 		ID:    "C20",
 		Title: "The parallel map/reduce helper maps every item once and reduces serially",
 		Kernels: []Kernel{{
-			Name: "amr", Pkg: "common", Files: []string{"common/c20.go"}, Entry: "VerifAMR", Mode: "all", Race: true,
+			Name: "amr", Pkg: "common", Files: []string{"common/c20.go"}, Entry: "VerifAMR", Mode: "all", Race: true, Native: true,
 			Quick:     map[string]int{"nmax": 4},
 			Thorough:  map[string]int{"nmax": 5},
 			Reach:     []string{"mixed success and failure", "empty input"},
